@@ -41,6 +41,9 @@ type Faults struct {
 	TearWrite int    `json:"tear_write"`
 	TearKeep  int    `json:"tear_keep,omitempty"`
 	TearErr   string `json:"tear_err,omitempty"` // "", "ENOSPC", "EIO"
+	// TearSibling: the process dies with the complete new contents sitting under this name beside the target and
+	// the target itself untouched: what a kill between "write temporary file" and "rename" leaves behind
+	TearSibling string `json:"tear_sibling,omitempty"`
 	// OpenErr / ReadErr: path (absolute) -> errno name.
 	OpenErr map[string]string `json:"open_err,omitempty"`
 	ReadErr map[string]string `json:"read_err,omitempty"`
@@ -152,6 +155,11 @@ func (h *hookState) writeFile(site, path string, data []byte, perm os.FileMode) 
 	h.mu.Unlock()
 	if h.f.TearWrite != w {
 		return false, nil
+	}
+	if h.f.TearSibling != "" {
+		must(os.WriteFile(filepath.Join(filepath.Dir(path), h.f.TearSibling), data, perm))
+		h.fired = append(h.fired, "sibling-crash:"+h.f.TearSibling)
+		panic(simCrash{Site: site + ".sibling", Detail: h.f.TearSibling})
 	}
 	keep := h.f.TearKeep
 	if keep > len(data) {
